@@ -549,7 +549,7 @@ pub fn root_setters() -> Report {
 }
 /// builder as an interning model
 pub fn builder_model() -> Report {
-    let bound = "all sequences of <= 4 operations from add_source / add_name over {'a','b',''} and set_source_contents(id, Some/None) over ids {0,1,2} and add_to_ignore_list over ids {0,1} (before or after the source exists); all sequences of <= 3 add() calls over 6 source/name combinations (each present or absent)";
+    let bound = "all sequences of <= 4 operations from add_source / add_name over {'a','b',''} and set_source_contents(id, Some/None) over ids {0,1,2} and add_to_ignore_list over ids {0,1} (before or after the source exists); all triples of 15 look-alike strings (./a.js, a.js/, A.js, NFC / NFD, ...) through add_source and add_name; all sequences of <= 3 add() calls over 6 source/name combinations (each present or absent)";
     let mut cases = 0u64;
     #[derive(Clone, Debug)] enum Op { Src(&'static str), Name(&'static str), Cont(u32, Option<&'static str>), Ign(u32) }
     let mut ops = vec![]; for s in ["a", "b", ""] { ops.push(Op::Src(s)); ops.push(Op::Name(s)); } for i in 0..3 { ops.push(Op::Cont(i, Some("c"))); ops.push(Op::Cont(i, None)); } for i in 0..2 { ops.push(Op::Ign(i)); }
@@ -577,6 +577,24 @@ pub fn builder_model() -> Report {
         if gi != ign { return r("builder_model", bound, cases, Some(format!("{seq:?}: finished map ignore list {gi:?}, the ids passed to add_to_ignore_list were {ign:?}"))); }
     }
     // add(): every added token resolves to exactly the strings it was added with, whatever mix of source / name is given
+    // interning is by exact string: look-alike strings (a normalisation would conflate them) must get ids of their own
+    {
+        let pool = ["a.js", "./a.js", "a.js/", "/a.js", "A.js", "a.js ", "a\\b.js", "a/b.js", "\u{e9}.js", "e\u{301}.js", "", ".", "../a.js", "a.js?x", "http://h/a.js"];
+        for i in 0..pool.len() { for j in 0..pool.len() { for k in 0..pool.len() { for via in 0..2 {
+            cases += 1;
+            let seq = [pool[i], pool[j], pool[k], pool[i]];
+            let mut b = SourceMapBuilder::new(None);
+            let mut model: Vec<&str> = vec![];
+            for s in seq {
+                let id = if via == 0 { b.add_source(s) } else { b.add_name(s) };
+                let want = model.iter().position(|x| *x == s).unwrap_or_else(|| { model.push(s); model.len() - 1 });
+                if id as usize != want { return r("builder_model", bound, cases, Some(format!("{} of {seq:?} in turn: {s:?} got id {id}, the interning model (equal string -> same id, new string -> next unused id) says {want}", if via == 0 { "add_source" } else { "add_name" }))); }
+            }
+            let sm = b.into_sourcemap();
+            let got: Vec<String> = if via == 0 { sm.sources().map(|x| x.to_string()).collect() } else { sm.names().map(|x| x.to_string()).collect() };
+            if got != model.iter().map(|x| x.to_string()).collect::<Vec<_>>() { return r("builder_model", bound, cases, Some(format!("after adding {seq:?} the finished map lists {got:?}, model {model:?}"))); }
+        } } } }
+    }
     let opts: Vec<(Option<&str>, Option<&str>)> = vec![(None, None), (Some("a.js"), None), (None, Some("n")), (Some("a.js"), Some("n")), (Some("b.js"), Some("m")), (None, Some("m"))];
     let mut tseqs: Vec<Vec<usize>> = vec![vec![]]; let mut tlayer: Vec<Vec<usize>> = vec![vec![]];
     for _ in 0..3 { let mut next = vec![]; for s in &tlayer { for o in 0..opts.len() { let mut t = s.clone(); t.push(o); next.push(t); } } tseqs.extend(next.iter().cloned()); tlayer = next; }
@@ -774,5 +792,26 @@ pub fn decode_document() -> Report {
         for s in idx.sections() { if let Some(DecodedMap::Hermes(h)) = s.get_sourcemap() { let t = h.get_token(0).unwrap();
             if h.get_scope_for_token(t) != Some("<global>") { return r("decode_document", bound, cases, Some(format!("index document {doc}: the Hermes section lost its function map (scope {:?})", h.get_scope_for_token(t)))); } } }
     } } }
+    // index documents listing 3..4 sections in EVERY order (several on one line, lines repeated): sections come out ordered by (line, column) and every lookup resolves in the right one
+    {
+        let offs_all: Vec<Vec<(u32, u32)>> = vec![vec![(0, 0), (0, 20), (0, 40)], vec![(0, 0), (0, 20), (1, 5)], vec![(0, 10), (2, 0), (2, 30), (3, 0)], vec![(0, 0), (0, 20), (0, 40), (1, 5)]];
+        for offs in &offs_all {
+            let n = offs.len();
+            let mut perms: Vec<Vec<usize>> = vec![vec![]];
+            for _ in 0..n { let mut next = vec![]; for p in &perms { for i in 0..n { if !p.contains(&i) { let mut q = p.clone(); q.push(i); next.push(q); } } } perms = next; }
+            for perm in &perms {
+                cases += 1;
+                let secs: Vec<String> = perm.iter().map(|&i| format!(r#"{{"offset":{{"line":{},"column":{}}},"map":{{"version":3,"sources":["s{i}.js"],"names":[],"mappings":"AAAA"}}}}"#, offs[i].0, offs[i].1)).collect();
+                let doc = format!(r#"{{"version":3,"sections":[{}]}}"#, secs.join(","));
+                let idx = match guarded(|| decode_slice(doc.as_bytes())) { Ok(Ok(DecodedMap::Index(i))) => i, o => return r("decode_document", bound, cases, Some(format!("index document {doc} does not decode as an index map: {:?}", o.map(|x| x.map(|_| ()).map_err(|e| e.to_string()))))) };
+                let got: Vec<(u32, u32)> = idx.sections().map(|s| s.get_offset()).collect();
+                if got != *offs { return r("decode_document", bound, cases, Some(format!("index document listing its sections in the order {perm:?} of {offs:?}: sections() come out as {got:?}, expected them ordered by offset"))); }
+                for (i, o) in offs.iter().enumerate() { for dc in [0u32, 3] {
+                    let t = idx.lookup_token(o.0, o.1 + dc).and_then(|t| t.get_source().map(|s| s.to_string()));
+                    if t != Some(format!("s{i}.js")) { return r("decode_document", bound, cases, Some(format!("index document listing its sections in the order {perm:?} of {offs:?}: lookup at ({}, {}) resolves to {t:?}, expected the section at {o:?} (s{i}.js)", o.0, o.1 + dc))); }
+                } }
+            }
+        }
+    }
     r("decode_document", bound, cases, None)
 }
